@@ -135,11 +135,6 @@ RECURSIVE CountBreaks(_, _)
 CountBreaks(t, k) == IF k > Len(t) THEN 0 ELSE (IF t[k] \in {CR, LF} THEN 1 ELSE 0) + CountBreaks(t, k + 1)
 LineBound == st.l <= 1 + CountBreaks(text, 1)
 \* token shapes
-FixedVal(t) == CASE t = "EOF" -> <<>> [] t = "NEWLINE" -> <<LF>> [] t = "BRACE_OPEN" -> <<LBRACE>> [] t = "BRACE_CLOSE" -> <<RBRACE>>
-                 [] t = "PAREN_OPEN" -> <<LPAREN>> [] t = "PAREN_CLOSE" -> <<RPAREN>> [] t = "BRACK_OPEN" -> <<LBRACK>>
-                 [] t = "BRACK_CLOSE" -> <<RBRACK>> [] t = "COLON" -> <<COLON>> [] t = "EQUALS" -> <<EQUALS>>
-                 [] t = "PLUS" -> <<PLUS>> [] t = "COMMA" -> <<COMMA>>
-ValueToks == {"STRING", "PAREN_ARGS", "DIRECTIVE", "COMMENT", "PROP_FLAG"}
 TokShape == \A k \in 1..Len(toks) :
     /\ toks[k].t \in ValueToks \/ toks[k].v = FixedVal(toks[k].t)
     /\ (toks[k].t = "PAREN_ARGS" => o.sp) /\ (toks[k].t = "PAREN_OPEN" => ~o.sp)
@@ -148,6 +143,18 @@ TokShape == \A k \in 1..Len(toks) :
 \* the functional definition used by the record validators is this machine
 LexIsMachine == (Kind = "family" /\ ph \in {"eof", "err"} /\ again = 0) =>
     LET L == Lex(text, Cf) IN L.toks = toks /\ L.err = err /\ L.n = n /\ L.st = st
+
+\* the caller's view: a peeked or pushed-back token is what the next call returns, and neither
+\* disturbs the stream behind it
+CallerLaws == (Kind = "family" /\ ph \in {"eof", "err"} /\ again = 0) =>
+    LET L == [toks |-> toks, err |-> err] IN
+    \A k \in 0..Len(toks) :
+        LET s == [k |-> k, pb |-> <<>>, l |-> IF k = 0 THEN 1 ELSE toks[k].l]
+            c == Call(L, s)  pk == Peek(L, s)  pu == PushBack(s, "NEWLINE", <<>>).s
+        IN  /\ pk.res = c.res /\ pk.err = c.err
+            /\ (c.err = NoErrL => (Call(L, pk.s) = c /\ pk.s.l = c.s.l))
+            /\ Call(L, pu).res = NewlineTok /\ Call(L, pu).s = s
+            /\ (k < Len(toks) => c.res = Tok(toks[k + 1].t, toks[k + 1].v) /\ c.s.l = toks[k + 1].l)
 
 (* ---- chunk independence at the level of the model ------------------------------------ *)
 \* the same lexer on top of the chunked cursor, for every chunking, sees the same thing
